@@ -117,7 +117,21 @@ func VH_C02_ReadBack() {
 	// a zero-length blob, pushed and acknowledged like any other
 	dEmpty, cEmpty := vhPushBlob(w.s, "a", []byte{})
 	vh.Assert(cEmpty == 201, "C02.setup")
+	// a nested index: image 2 and an index over it by digest only, an index over that
+	// index by tag (children and grandchildren live in the child list, which a restart
+	// rebuilds from the index blobs)
+	idxA := vhIndexDoc([]types.Descriptor{vhDesc(types.MediaTypeOCI1Manifest, w.img2)}, nil, "")
+	idxB := vhIndexDoc([]types.Descriptor{vhDesc(types.MediaTypeOCI1ManifestList, idxA)}, nil, "")
+	dIdxA, dIdxB := digest.Canonical.FromBytes(idxA), digest.Canonical.FromBytes(idxB)
+	vh.Assert(vhPutManifest(w.s, "a", w.dImg2.String(), types.MediaTypeOCI1Manifest, w.img2).Status() == 201 &&
+		vhPutManifest(w.s, "a", dIdxA.String(), types.MediaTypeOCI1ManifestList, idxA).Status() == 201 &&
+		vhPutManifest(w.s, "a", "tn", types.MediaTypeOCI1ManifestList, idxB).Status() == 201, "C02.setup")
+	w.rec.names = nil
 	items := []vhItem{
+		{"a", w.dImg2.String(), w.img2, w.dImg2, types.MediaTypeOCI1Manifest},
+		{"a", dIdxA.String(), idxA, dIdxA, types.MediaTypeOCI1ManifestList},
+		{"a", dIdxB.String(), idxB, dIdxB, types.MediaTypeOCI1ManifestList},
+		{"a", "tn", idxB, dIdxB, types.MediaTypeOCI1ManifestList},
 		{"a", dEmpty.String(), []byte{}, dEmpty, ""},
 		{"a", w.dConf.String(), w.conf, w.dConf, ""},
 		{"a", w.dLayer.String(), w.layer, w.dLayer, ""},
@@ -192,7 +206,13 @@ func VH_C02_ReadBack() {
 		vh.Cover("C02.after-restart")
 	}
 	acc := vh.Choice("accept", vh.Param("ACCEPTS", 4))
+	// the nested-index items (the first four) are read after a restart or after a request
+	// that changed repository a; other paths cannot affect them (cost cut, stated)
+	nestedMatters := restart || (r.repo == "a" && (code == 201 || code == 202))
 	for _, it := range keep {
+		if !nestedMatters && (it.dig == w.dImg2 || it.dig == dIdxA || it.dig == dIdxB) {
+			continue
+		}
 		vhReadBack(w.s, it, acc)
 	}
 	vh.Cover("C02.readback-end")
